@@ -27,6 +27,7 @@ RULE += (' Also: sources without aclose, adapters, future-like sources; after a 
 RULE += (' Also: cached_property with and without lock, a deleting task, two awaiters cancelled at all pairs of their suspension points; the run without cancellation is judged as well.')
 RULE += (' Also: tee scenarios in which the cancelled child is the last live one (siblings closed first; n=1).')
 RULE += (' Also: scoped scenarios over the __getattr__-forwarding adapter.')
+RULE += (' Also: stacks unwound by aclose() instead of a with-block.')
 ASSUMPTIONS = ["user cleanup (source aclose, lock release) does not itself suspend",
                "an async-generator source cancelled inside its own await dies with the cancellation (language semantics)"]
 EXHAUSTIVE = {"quick": False, "thorough": False}
